@@ -168,7 +168,7 @@ def map_contracts(entries_of):
 
     lower = z3.Function('to_lowercase', z3.StringSort(), z3.StringSort())
 
-    @reg(r'core::str::<impl str>::to_lowercase$|core::str::<impl str>::to_ascii_lowercase$|core::str::<impl str>::to_uppercase$')
+    @reg(r'(core|std)::str::<impl str>::(to_lowercase|to_ascii_lowercase|to_uppercase|to_ascii_uppercase)$')
     def to_lower(exe, path, callee, args, dst_ty):
         s_ = contracts.strval(exe, path, args[0])
         if not (isinstance(s_, z3.ExprRef) and z3.is_string(s_)):
